@@ -223,15 +223,21 @@ func (c *Coordinator) gcTargets(changeAbleShards []*shardInfo, active map[uint64
 				continue
 			}
 
+			deleted, hasOther := false, false
 			for oi, other := range changeAbleShards {
 				if s == other {
 					continue
 				}
 				st := other.scraping[h]
+				if st != nil {
+					hasOther = true
+				}
+
 				if st != nil && st.ScrapeTimes >= minWaitScrapeTimes {
 					// is in_transfer state and had been scraped by other shard
 					if tar.TargetState == target.StateInTransfer && st.TargetState == target.StateNormal {
 						delete(s.scraping, h)
+						deleted = true
 						break
 					}
 
@@ -244,10 +250,17 @@ func (c *Coordinator) gcTargets(changeAbleShards []*shardInfo, active map[uint64
 						// with equal load the copy on the later shard goes, otherwise both would stay for ever
 						if otherLoad < sLoad || (otherLoad == sLoad && oi < si) {
 							delete(s.scraping, h)
+							deleted = true
 							break
 						}
 					}
 				}
+			}
+
+			// the shard this target was being transferred to never got it (update lost, shard removed):
+			// nobody will take it over, so it is scraped normally again
+			if !deleted && !hasOther && tar.TargetState == target.StateInTransfer {
+				tar.TargetState = target.StateNormal
 			}
 		}
 	}
